@@ -525,8 +525,24 @@ class ClassBuilder:
     for i in range(cnt): self.avail.append((mkref(f"{base}[{i}]"), t))
     self.lists.append(("", base, cnt, t))
 
+  def step_pack(self):
+    """a Bits signal that receives the whole packed value of a struct-typed signal (s.flat @= s.in_)"""
+    d = self.draw
+    cands = []
+    for r, at in self.avail:
+      if at[0] == "s" and type_width(at) < 256: cands.append((r, at))
+    if not cands: return False
+    r, at = d(st.sampled_from(cands))
+    w = type_width(at)
+    n = self.new_signal(["b", w])
+    self.blocks.append({"name": self.fresh("up"), "kind": "comb", "stmts": [["assign", mkref(n), ["sig", r]]]})
+    self.avail.append((mkref(n), ["b", w]))
+    return True
+
   def step_signals(self):
     d = self.draw
+    if self.opts["structs"] and not self.opts["sloppy"] and d(st.integers(0, 7)) == 0 and self.step_pack():
+      return
     if self.opts["lists"] and d(st.integers(0, 5)) == 0:
       return self.step_list()
     new = []
